@@ -169,7 +169,7 @@ pub fn c14_case(max_recs: usize, max_sets: usize) -> BoxedStrategy<Case> {
 
 pub fn run(ctx: &Ctx) {
     ctx.replay_findings(&oracle);
-    ctx.search("every-cut-of-small-packets", ctx.n(6_000, 150_000), &|| c14_case(3, 3), &oracle);
-    ctx.search("every-cut-of-larger-packets", ctx.n(300, 10_000), &|| c14_case(12, 6), &oracle);
+    ctx.search("every-cut-of-small-packets", ctx.n(8_000, 600_000), &|| c14_case(3, 3), &oracle);
+    ctx.search("every-cut-of-larger-packets", ctx.n(400, 40_000), &|| c14_case(12, 6), &oracle);
     ctx.put_extra("cuts_executed", serde_json::json!(CUTS.load(Ordering::Relaxed)));
 }
